@@ -10,7 +10,7 @@ use serde_json::{json, Value};
 pub static ENGINE: Engine = Engine {
     prop: "C18",
     level: "exploration",
-    rule: "the real random_graph_gen binary with its random source scripted through the verif-hooks feature: for every (V, -u) whose candidate edge list has m <= 6 entries (directed V <= 3, undirected V <= 4) ALL m! Fisher-Yates choice vectors x every E in 0..m+1 x {edge list, --dot}: exactly E distinct edges, endpoints distinct and among v0..v(V-1), no reversed pair under -u, E > m refused with non-zero exit and no edge printed, and the number of distinct outputs over all vectors equals m!/(m-E)! (proof that every choice is owned). For larger candidate lists (V=4,5 directed; V=5,6 undirected; m = 10..20) every ORDERED SELECTION of E <= 2 (3) candidate edges is forced by a constructed choice vector. -o FILE onto an existing longer file = stdout of the same request. --complete x V in 0..5 x -u x {no E, E = 0, 1, m, m+1, 50} = all pairs. --convert: every edge list <= 3 over {a,b,c} x -u x {csv, --dot} x {newline-terminated, no final newline} reproduces the list (reversed duplicates merged under -u). --colors k: every loop-free graph on <= 4 named vertices (two name families, one with names that are prefixes of each other) x k in 0..3: the output has a clique choosing one (vertex,colour) per input vertex iff the input is k-colourable (brute force). Larger inputs: graphs on five vertices with two-digit names x k in 2..4 (every third graph in quick, all 1023 in thorough) and edge lists of 4..10 edges through --convert. Labelled supplement: un-scripted runs with fresh entropy (sampled, not part of the claim). distinct = distinct (argv, script, stdout)",
+    rule: "the real random_graph_gen binary with its random source scripted through the verif-hooks feature: for every (V, -u) whose candidate edge list has m <= 6 entries (directed V <= 3, undirected V <= 4) ALL m! Fisher-Yates choice vectors x every E in 0..m+1 x {edge list, --dot}: exactly E distinct edges, endpoints distinct and among v0..v(V-1), no reversed pair under -u, E > m refused with non-zero exit and no edge printed, and the number of distinct outputs over all vectors equals m!/(m-E)! (proof that every choice is owned). For larger candidate lists (V=4,5 directed; V=5,6 undirected; m = 10..20) every ORDERED SELECTION of E <= 2 (3) candidate edges is forced by a constructed choice vector. -o FILE onto an existing longer file = stdout of the same request. --complete x V in 0..5 x -u x {no E, E = 0, 1, m, m+1, 50} = all pairs. --convert: every edge list <= 3 over {a,b,c} x -u x {csv, --dot} x {newline-terminated, no final newline} reproduces the list (reversed duplicates merged under -u); also lists <= 2 with self-loops and with vertex names that look like keywords of graph formats (graph1, digraph, strict_x, node, edge, subgraph). --colors k: every loop-free graph on <= 4 named vertices (two name families, one with names that are prefixes of each other) x k in 0..3: the output has a clique choosing one (vertex,colour) per input vertex iff the input is k-colourable (brute force). Larger inputs: graphs on five vertices with two-digit names x k in 2..4 (every third graph in quick, all 1023 in thorough) and edge lists of 4..10 edges through --convert. Labelled supplement: un-scripted runs with fresh entropy (sampled, not part of the claim). distinct = distinct (argv, script, stdout)",
     assumptions: &["the hook replays RSBDD_VERIF_RNG as the u32 values drawn by rand 0.8's shuffle (widening-multiply index sampling); a mismatch shows up as a wrong number of distinct outputs", "k-colourability is defined on loop-free graphs; isolated vertices cannot be expressed in an edge list"],
     max_shards: 64,
     run,
@@ -469,6 +469,36 @@ fn convert_sweep(ctx: &mut Ctx) {
                     idx += 1;
                     if ctx.mine(idx) {
                         check_convert(ctx, &edges, u, dot);
+                    }
+                }
+            }
+        }
+    }
+    // self-loops are lines of the list like any other; vertex names that look like keywords of
+    // graph file formats
+    for (names, loops, maxlen) in [(["a", "b", "c"], true, 2usize), (["graph1", "digraph", "strict_x"], false, 2), (["node", "edge", "subgraph"], true, 2)] {
+        let mut ps = vec![];
+        for a in names {
+            for b in names {
+                if loops || a != b {
+                    ps.push((a.to_string(), b.to_string()));
+                }
+            }
+        }
+        for len in 1..=maxlen {
+            let mut lists = vec![];
+            for_each_seq(ps.len(), len, &mut |_, d| lists.push(d.to_vec()));
+            for d in lists {
+                let edges: Vec<(String, String)> = d.iter().map(|i| ps[*i].clone()).collect();
+                if !loops && names[0] == "a" {
+                    continue;
+                }
+                for u in [false, true] {
+                    for dot in [false, true] {
+                        idx += 1;
+                        if ctx.mine(idx) {
+                            check_convert(ctx, &edges, u, dot);
+                        }
                     }
                 }
             }
